@@ -228,3 +228,14 @@ def run(rep, programs):
 
 def _uncanon_walk(t):
     return t
+
+
+_run_c11 = run
+
+
+def run(rep, programs):  # noqa: F811
+    _run_c11(rep, programs)
+    # once the slot's tree is reserved, the frame is found by the search inside that tree: every huge frame of the tree and
+    # every row are visited (the whole of C12's argument is a premise here)
+    from props import c12
+    c12.run(rep, programs)
